@@ -144,6 +144,7 @@ extra15 = {
  "C06": "; back pressure: 1010 deliveries while the processor's first call takes 11 s (hand-over channel of 1000)",
  "C12": "; six-header histories over two unit-work slots with a mark before the Save / Clean that is stopped",
  "C08": "; seven-header histories (reorganisations between a branch of a branch and an unrelated later fork)",
+ "C10": "; a Clean whose 1st .. 6th storage call fails (reports unchanged, later submissions follow the reference tree)",
  "C11": "; a side branch of many light headers taller than the heavier best chain by more than the restart keeps",
  "C15": "; nine well-formed messages sent twice and three times in a row in three stages (Run must return)",
  "C16": "; a source whose block arrives while the manager is inside its next call to the requestor",
